@@ -147,31 +147,44 @@ class Runner:
             chunk_s = 10.0
             qtimeout = 20000 if self.tier == "quick" else 60000
             deadline = t0 + self.budget
-            queue = [(n, []) for n, _, _ in self.units]
+            queue = {n: [[]] for n, _, _ in self.units}  # unit -> pending prefixes
+            inflight = {n: 0 for n, _, _ in self.units}
+            unit_cap = getattr(self.mod, "UNIT_PATH_CAP", {}).get(self.tier, 1500 if self.tier == "quick" else 40000)
             running = []
             native_running = []
             for n, _, _ in self.units:
                 self.stats[n] = {"paths": 0, "ok": 0, "infeasible": 0, "cut": 0, "inconclusive": 0, "queries": 0, "solver_s": 0.0,
                                  "checks": 0, "why": {}, "reached": {}, "excused": {}, "violations": 0, "tasks": 0, "unexplored": 0}  # fmt: skip
             cand = {}  # (unit, label) -> [violation records]
-            while queue or running or native_running:
+            while any(queue.values()) or running or native_running:
                 now = time.time()
-                while queue and len(running) < nsym * 2 and now < deadline:
-                    n, pre = queue.pop()
+                while len(running) < nsym + 2 and now < deadline:
+                    # fair share: the unit with the fewest paths explored / in flight goes first
+                    cands = [n for n, q in queue.items() if q and self.stats[n]["paths"] < unit_cap]
+                    if not cands:
+                        break
+                    n = min(cands, key=lambda u: self.stats[u]["paths"] + inflight[u] * chunk_paths)
+                    q = queue[n]
+                    pre = q.pop(min(range(len(q)), key=lambda i: len(q[i])))  # shallowest prefix first across tasks
                     left = max(1.0, deadline - now)
                     ar = spool.apply_async(task_explore, (self.prop, n, self.tier, pre, chunk_paths, min(chunk_s, left), self.regions(n), qtimeout))
+                    ar.unit = n
+                    inflight[n] += 1
                     running.append(ar)
                     self.stats[n]["tasks"] += 1
-                if now >= deadline and queue:
-                    for n, pre in queue:
-                        self.stats[n]["unexplored"] += 1
-                        self.unexplored += 1
-                    queue = []
+                if not running and (now >= deadline or all(not q or self.stats[n]["paths"] >= unit_cap for n, q in queue.items())):
+                    for n, q in queue.items():
+                        self.stats[n]["unexplored"] += len(q)
+                        self.unexplored += len(q)
+                        if q and now < deadline:
+                            self.stats[n]["why"]["unit path cap"] = len(q)
+                    queue = {n: [] for n in queue}
                 progressed = False
                 for ar in list(running):
                     if not ar.ready():
                         continue
                     running.remove(ar)
+                    inflight[ar.unit] -= 1
                     progressed = True
                     try:
                         agg = ar.get()
@@ -188,8 +201,7 @@ class Runner:
                     st.setdefault("kinds", {}).update(agg["kinds"])
                     self.encoded.update(tuple(x) for x in agg["encoded"])
                     self.stubs.update(agg["stubs"])
-                    for pre in agg["leftover"]:
-                        queue.append((n, pre))
+                    queue[n].extend(agg["leftover"])
                     for v in agg["violations"]:
                         st["violations"] += 1
                         key = (n, v["label"])
